@@ -22,6 +22,12 @@ fn main() {
         std::process::exit(2);
     }
     let facet = args[1].clone();
+    if facet == "--c12-child" {
+        // isolated executor of the C12 facet: one context per input line
+        std::panic::set_hook(Box::new(|_| {}));
+        facets::c12::child_main();
+        return;
+    }
     let mut opts = Opts {
         thorough: false,
         seed: 1,
@@ -70,6 +76,7 @@ fn main() {
         "C05" => facets::c05::run(&opts),
         "C06" => facets::c06::run(&opts),
         "C09" => facets::c09::run(&opts),
+        "C12" => facets::c12::run(&opts),
         other => {
             eprintln!("unknown facet {}", other);
             std::process::exit(2)
